@@ -195,7 +195,7 @@ def token_names_from_lexer(lexer_text):
     toks = [l.strip().rstrip(',') for l in body.split('\n') if l.strip() and not l.strip().startswith('#')]
     return [t for t in toks if t not in ('EOF', 'Error')]
 
-def make_harness(text, want_native=True, log=None):
+def make_harness(text, want_native=True, log=None, dynskip=None):
     """grammar text -> Harness or (None, reason). Cached by content of the emitted code + templates."""
     r = run_llw(text)
     if r['rc'] != 0 or r['generated'] is None:
@@ -221,6 +221,11 @@ def make_harness(text, want_native=True, log=None):
     for i, p in enumerate(preds):
         # lookahead offered to predicates is observed (kind 4): peek(0), peek(1), peek_left(0), peek_left(1)
         cbs.append(f'    fn {p}(&self) -> bool {{ log_ev(Ev {{ kind: 4, id: self.peek(0) as usize, node: self.peek(1) as usize, pos: self.pos, in_choice: self.in_ordered_choice, nlen: self.peek_left(0) as usize, nrule: self.peek_left(1) as usize, noff: {i} }}); log_ev(Ev {{ kind: 5, id: self.peek(2) as usize, node: self.peek(3) as usize, pos: self.pos, in_choice: self.in_ordered_choice, nlen: self.peek_left(2) as usize, nrule: self.peek_left(3) as usize, noff: {i} }}); nondet_bool() }}')
+    if dynskip:
+        # user override of predicate_skip: the environment decides, call by call, whether a token of kind `dynskip` is skipped
+        # (kind 6 event: id = answer, pos = index of the token that was asked about)
+        ev6 = lambda a: f'log_ev(Ev {{ kind: 6, id: {a}, node: 0, pos: self.pos, in_choice: self.in_ordered_choice, nlen: 0, nrule: 0, noff: 0 }})'
+        cbs.append(f'    fn predicate_skip(&self, token: Token) -> bool {{ if matches!(token, Token::{dynskip}) {{ if nondet_bool() {{ {ev6(1)}; true }} else {{ {ev6(0)}; false }} }} else {{ false }} }}')
     for i, a in enumerate(acts):
         cbs.append(f'    fn {a}(&mut self, _diags: &mut Vec<Self::Diagnostic>) {{ self.ev(3, {i}, 0); }}')
     for i, a in enumerate(asserts):
